@@ -128,7 +128,7 @@ func c08Gen(K int) func(t *rapid.T) c08Case {
 }
 
 func TestC08(t *testing.T) {
-	ev.Check(t, "c08_entropy", ev.N(2000, 30000), c08Gen(ev.Pick(24, 100)), c08Run)
+	ev.Check(t, "c08_entropy", ev.N(8000, 60000), c08Gen(ev.Pick(24, 100)), c08Run)
 	// shipped lists: entropy of the documented example recipes
 	ev.Check(t, "c08_shipped", ev.N(16, 64), func(t *rapid.T) c08Case {
 		return c08Case{W: gen.WLSpec{Words: nil, Length: rapid.IntRange(1, 12).Draw(t, "len"), Scheme: gen.Scheme(t, false), Sep: gen.Sep(t, false, false)}, Calls: rapid.IntRange(0, 1).Draw(t, "which")}
